@@ -288,6 +288,7 @@ def run_template(M, tmpl, aspects, binary, workdir, par=16, timeout=600):
             res['inconclusive'].append('%s: %s' % (r['status'], r['detail'][:300])); continue
         o = r['obs']
         res['cases'] += o['cases']; res['silent'] += len(o['silent'])
+        for sr in o['silent']: res.setdefault('silent_reasons', {}); res['silent_reasons'][sr] = res['silent_reasons'].get(sr, 0) + 1
         for k in o['ref']: res['ref_kinds'][k] = res['ref_kinds'].get(k, 0) + 1
         for u in o['unknown']: res['inconclusive'].append('oracle: ' + u)
         # engine validation: replay this path's witness natively
